@@ -2,12 +2,7 @@
 //! `check <ID> <quick|thorough>` | `check <ID> --replay <file>`
 //! Exit 0 = held on everything explored; 1 = VIOLATION printed; 2 = inconclusive / harness error.
 
-mod gen;
-mod guard;
-mod props;
-mod refdns;
-mod runner;
-mod sim;
+use verif_harness::{guard, props, runner};
 
 use runner::Tier;
 
